@@ -118,6 +118,11 @@ def _exercise(report, lab, lean, n_sets, seed):
                     pyjobs.append({"proto": pname, "infmt": "b", "outfmt": "b", "in": inp, "out": outr, "mode": "hold", "reuse": True,
                                    "steps": [{"name": vlib.to_snake(s["name"]), "stream": s["stream"]} for s in pj]})
                     pending.append((pj, vals, outr, dict(ctx, py_mode="lazy producer re-yielding one mutated object")))
+                    # the same values handed over as one NumPy array per stream whose dtype is not the generated one (byte order, width, field order)
+                    outa = lab.tmp(".py-arrays.bin")
+                    pyjobs.append({"proto": pname, "infmt": "b", "outfmt": "b", "in": inp, "out": outa, "mode": "hold", "foreign_arrays": True,
+                                   "steps": [{"name": vlib.to_snake(s["name"]), "stream": s["stream"]} for s in pj]})
+                    pending.append((pj, vals, outa, dict(ctx, py_mode="streams written from NumPy arrays of another byte order / width / field order")))
     results = lab.run_py(pyjobs)
     for (pj, vals, outp, ctx), res in zip(pending, results):
         _judge(report, lab, lean, pj, vals, "py", res["rc"], res["exc"], outp, ctx, None, None, None)
